@@ -354,6 +354,22 @@ def programs(tier, seed):
     q["entry"] = main
     q["name"] = "same-function-two-paths"
     ps.append(q)
+    # twins (one function kept under two paths) that are edge ends: kept inside kept stages, one of them loaded by a third stage
+    q = gen.new_program("g%d" % k)
+    k += 1
+    m = gen.add_module(q, "gm")
+    table = gen.add_fn(q, m, "table", const=3)
+    s1 = gen.add_fn(q, m, "stage_one", const=4)
+    q["fns"][s1]["stmts"] = [gen.s_keep("/tw/one/table", table, [])]
+    s2 = gen.add_fn(q, m, "stage_two", const=5)
+    q["fns"][s2]["stmts"] = [gen.s_keep("/tw/two/table", table, [])]
+    s3 = gen.add_fn(q, m, "stage_three", const=6)
+    q["fns"][s3]["stmts"] = [gen.s_load("/tw/one/table")]
+    main = gen.add_fn(q, m, "gmain", const=9)
+    q["fns"][main]["stmts"] = [gen.s_keep("/tw/s1", s1, []), gen.s_keep("/tw/s2", s2, []), gen.s_keep("/tw/s3", s3, [])]
+    q["entry"] = main
+    q["name"] = "twins-as-edge-ends"
+    ps.append(q)
     # run-time argument chains
     q = gen.new_program("g%d" % k)
     k += 1
